@@ -75,12 +75,22 @@ def convert_eems2_commands(command_nodes):
     converted = []
 
     for node in command_nodes:
+        result_name = (
+            node.result_name
+            or find_argument(node, "NewFieldName")
+            or find_argument(node, "InFieldName")
+        )
+
+        if isinstance(result_name, (list, dict)):
+            raise ProgramError(
+                lineno=node.lineno,
+                message="Cannot convert from EEMS 2.0: the field name of a result must be a single value, not a list.",
+            )
+
         try:
             converted.append(
                 CommandNode(
-                    node.result_name
-                    or find_argument(node, "NewFieldName")
-                    or find_argument(node, "InFieldName"),
+                    result_name,
                     EEMS_COMMANDS.get(node.command, node.command),
                     [
                         arg
